@@ -5,7 +5,7 @@ import statelib
 import fbgen
 from framework import Unit
 
-PROPS_FILES = ['C04', 'C04tb', 'C04bxj']
+PROPS_FILES = ['C04', 'C04tb', 'C04bxj', 'C04step']
 IMPORTS = 'From Gen Require Import enums opsyn core exec conc.'
 SPEC_IMPORTS = 'From ArmV Require Import Spec.Pseudocode Spec.Arch Spec.MachineView Spec.Branches.'
 PCS = [0, 4, 8, 0x100, 0x7FFFFFFC, 0x80000000, 0xFFFFFFF0, 0xFFFFFFF4, 0xFFFFFFF8, 0xFFFFFFFC]
@@ -214,6 +214,9 @@ def units():
             Unit('branch_offsets', off, ['Proofs/BranchProofs.v'], [], offset_cases, IMPORTS,
                  SPEC_IMPORTS),
             Unit('pc_advance', adv, ['Proofs/BranchProofs.v'], ['arm_v6.ArmV6.increment_pc_if_needed'], advance_cases, IMPORTS, SPEC_IMPORTS),
+            Unit('whole_step', ['C04_step_compose', 'C04_step_completes'], ['Proofs/StepProofs.v'],
+                 ['arm_v6.ArmV6.emulate_cycle', 'arm_v6.ArmV6.execute_instruction', 'arm_v6.ArmV6.increment_pc_if_needed'], None,
+                 IMPORTS, SPEC_IMPORTS),
             Unit('bxj', ['C04_Bxj'], ['Proofs/MiscProofs2.v'], ['opcodes.abstract_opcodes.bxj.Bxj.execute'], bxj_cases,
                  IMPORTS, 'From ArmV Require Import Lib.PyZ Lib.Monad Spec.Pseudocode Spec.Arch Spec.MachineView.'),
             Unit('table_branch', ['C04_TBB_TBH'], ['Proofs/TableBranchProofs.v'], ['opcodes.abstract_opcodes.tbb_tbh.TbbTbh.execute'],
